@@ -100,39 +100,48 @@ func logReset() { logMu.Lock(); logBuf = logBuf[:0]; logMu.Unlock() }
 
 var numRe = regexp.MustCompile(`0x[0-9a-fA-F]+|[0-9a-fA-F]{16,}|\d+`)
 
-// logReason condenses the error-level records since the last reset into a stable class string.
+// logReason condenses the error-level records since the last reset into a stable class string: the
+// record of the stage that failed (state processor, then processBlock / CheckBlock), not the noise
+// that failing contract calls log on the way.
 func logReason() string {
 	logMu.Lock()
 	defer logMu.Unlock()
-	var parts []string
+	best, rank := "", 99
 	for _, r := range logBuf {
 		if r.Lvl > log.LvlError {
 			continue
 		}
-		s := r.Msg
-		if r.Err != "" {
-			s += "=" + r.Err
+		k := 3
+		switch {
+		case strings.HasPrefix(r.Msg, "Process "):
+			k = 0
+		case strings.Contains(r.Msg, "setPoceeds") || strings.Contains(r.Msg, "allocAward"):
+			k = 4 // logged and ignored by processBlock
+		case strings.HasPrefix(r.Msg, "processBlock:"), strings.HasPrefix(r.Msg, "CheckBlock:"):
+			k = 1
+		case strings.HasPrefix(r.Msg, "PreRunBlock:"):
+			k = 2
 		}
-		s = numRe.ReplaceAllString(s, "N")
-		s = strings.Join(strings.Fields(s), "_")
-		dup := false
-		for _, p := range parts {
-			if p == s {
-				dup = true
+		if k < rank {
+			s := r.Msg
+			if r.Err != "" {
+				e := r.Err
+				if i := strings.Index(e, ","); i > 0 {
+					e = e[:i] // the class of the error, not its parameters
+				}
+				s += "=" + e
 			}
-		}
-		if !dup && len(parts) < 1 {
-			parts = append(parts, s)
+			s = numRe.ReplaceAllString(s, "N")
+			best, rank = strings.Join(strings.Fields(s), "_"), k
 		}
 	}
-	if len(parts) == 0 {
+	if best == "" {
 		return "no-error-logged"
 	}
-	out := strings.Join(parts, ";")
-	if len(out) > 160 {
-		out = out[:160]
+	if len(best) > 120 {
+		best = best[:120]
 	}
-	return out
+	return best
 }
 
 var appLogger log.Logger
@@ -343,6 +352,43 @@ type chainCase struct {
 	// what is needed to re-execute the block under examination on fresh replicas (diagnosis of a violation)
 	diagParts *types.PartSet
 	diagDBs   map[string]dbm.DB
+	// content of the process-wide WASM module cache before every execution of the block under examination
+	cacheSnaps []map[interface{}]interface{}
+}
+
+func snapAppCache() map[interface{}]interface{} {
+	m := map[interface{}]interface{}{}
+	vm.AppCache.Range(func(k, v interface{}) bool { m[k] = v; return true })
+	return m
+}
+
+func restoreAppCache(m map[interface{}]interface{}) {
+	clearAppCache()
+	for k, v := range m {
+		vm.AppCache.Store(k, v)
+	}
+}
+
+// noteExec remembers what the module cache held right before an execution (distinct contents only).
+func (cc *chainCase) noteExec() {
+	m := snapAppCache()
+	for _, o := range cc.cacheSnaps {
+		if len(o) == len(m) {
+			same := true
+			for k, v := range m {
+				if o[k] != v {
+					same = false
+					break
+				}
+			}
+			if same {
+				return
+			}
+		}
+	}
+	if len(cc.cacheSnaps) < 12 {
+		cc.cacheSnaps = append(cc.cacheSnaps, m)
+	}
 }
 
 // viol reports a violation of the differential oracle; the key is refined when the difference can be
@@ -350,16 +396,14 @@ type chainCase struct {
 // committed bytes gives another result once that cache is emptied.
 func (cc *chainCase) viol(key, detail string, wit interface{}) {
 	if cc.diagParts != nil && cc.diagDBs != nil {
-		run := func(clear bool) map[string]string {
+		run := func(cache map[interface{}]interface{}) map[string]string {
 			fn, err := chainkit.OpenNode(cc.g, copyDBs(cc.diagDBs), chainkit.NodeOpts{MemCfg: noCacheCfg()})
 			if err != nil {
 				return nil
 			}
 			defer fn.Close()
 			wire(fn)
-			if clear {
-				clearAppCache()
-			}
+			restoreAppCache(cache)
 			fb, _, err := decode(cc.diagParts)
 			if err != nil {
 				return nil
@@ -372,17 +416,27 @@ func (cc *chainCase) viol(key, detail string, wit interface{}) {
 			comp["verdict"] = fmt.Sprint(ok, has, pan != nil)
 			return comp
 		}
-		a, b := run(false), run(true)
-		if a != nil && b != nil {
+		after := snapAppCache()
+		empty := run(nil)
+	scan:
+		for i, snap := range append(append([]map[interface{}]interface{}{}, cc.cacheSnaps...), after) {
+			a := run(snap)
+			if dbg != nil {
+				dbg("diagnosis: cache content #%d (%d modules) -> %v gas %s / empty cache -> %v gas %s", i, len(snap), a["verdict"], a["gas-used"], empty["verdict"], empty["gas-used"])
+			}
+			if a == nil || empty == nil {
+				continue
+			}
 			for _, k := range append([]string{"verdict"}, components...) {
-				if a[k] != b[k] {
+				if a[k] != empty[k] {
 					detail = "(" + key + ") " + detail
 					key = "process-cache/wasm-app-cache-changes-block-result"
-					detail += fmt.Sprintf(" [re-executed on two replicas reopened from the same bytes: %s differs between the process-wide WASM module cache as left by earlier executions and an empty one]", k)
-					break
+					detail += fmt.Sprintf(" [re-executed on replicas reopened from the same bytes: %s differs between the process-wide WASM module cache as it was before one of the executions (%d modules) and an empty one]", k, len(snap))
+					break scan
 				}
 			}
 		}
+		restoreAppCache(after)
 	}
 	cc.c.Violation(key, detail, wit)
 }
